@@ -330,6 +330,52 @@ def run(ctx):
             if back != base:
                 ctx.violation('defaults-not-restored', case, 'default output after a failed serialisation and useDefaults() differs: %r vs %r' % (
                     back[:200], base[:200]), KNOWN_PRED)
+    # the minified preset is absolute: whatever was set before, useMinified() gives the output it gives from the defaults
+    for dom, text, base, sem, tok in doms[:2] + doms[-1:]:
+        cssutils.ser.prefs.useDefaults()
+        cssutils.ser.prefs.useMinified()
+        ref_min = dom.cssText
+        cssutils.ser.prefs.useDefaults()
+        for k, vs in ALL.items():
+            if k not in MINIFIED:
+                continue      # the preset says nothing about this option: it stays as the caller set it
+            for v in vs[1:]:
+                ctx.case((text, 'preset-after', k, repr(v)))
+                try:
+                    cssutils.ser.prefs.useDefaults()
+                    setattr(cssutils.ser.prefs, k, v)
+                    cssutils.ser.prefs.useMinified()
+                    got = dom.cssText
+                except Exception as e:
+                    ctx.violation('raises', {'text': text, 'prefs': {k: v}, 'family': 'preset-after'}, '%s: %s' % (type(e).__name__, e), KNOWN_PRED)
+                    continue
+                finally:
+                    cssutils.ser.prefs.useDefaults()
+                if got != ref_min:
+                    ctx.violation('preset-not-absolute', {'text': text, 'prefs': {k: v}, 'family': 'preset-after'},
+                                  '%s = %r followed by useMinified(): %r, from the defaults: %r' % (k, v, got[:200], ref_min[:200]), KNOWN_PRED)
+    # csscombine (it serialises with preferences of its own) leaves the library's preferences alone
+    import cssutils.script
+    for minify in (True, False):
+        for rv in (True, False):
+            dom, text, base, sem, tok = doms[0]
+            ctx.case((text, 'csscombine', minify, rv))
+            try:
+                cssutils.ser.prefs.useDefaults()
+                before = dict(vars(cssutils.ser.prefs))
+                cssutils.script.csscombine(cssText='@variables{c:red} a{color:var(c)}', href='http://h/x.css', minify=minify, resolveVariables=rv)
+                after = dict(vars(cssutils.ser.prefs))
+                back = dom.cssText
+            except Exception as e:
+                ctx.violation('raises', {'text': text, 'family': 'csscombine', 'minify': minify, 'resolveVariables': rv}, '%s: %s' % (type(e).__name__, e), KNOWN_PRED)
+                continue
+            finally:
+                if type(cssutils.ser) is not cssutils.serialize.CSSSerializer:
+                    cssutils.ser = cssutils.serialize.CSSSerializer()
+                cssutils.ser.prefs.useDefaults()
+            if after != before or back != base:
+                ctx.violation('defaults-not-restored', {'text': text, 'family': 'csscombine', 'minify': minify, 'resolveVariables': rv},
+                              'preferences after csscombine differ: %r' % {k: (before[k], after[k]) for k in before if before[k] != after.get(k)}, KNOWN_PRED)
     ctx.sample({'text': doms[0][1][:400], 'prefs_example': singles[3]})
     ctx.extra['assignment_families'] = {'singles': len(singles), 'pairs': npairs, 'doms': len(doms)}
     out_correspondence(ctx, 400 if quick else 20000)
